@@ -78,6 +78,9 @@ THEOREMS = [
     "Verif.C14.recovers_generating_parameters",
     "Verif.C14.more_noise_free_data_keeps_optimum",
     "Verif.C14.residualV_eq",
+    "Verif.C14.model_cost_is_sum_over_datasets",
+    "Verif.C14.cost_is_sum_over_datasets",
+    "Verif.C14.cost_by_name",
     "Verif.C14.collision_breaks_recovery",
 ]
 RULE = (
